@@ -85,3 +85,79 @@ def running_window(x: np.ndarray, w: int, method: str, bias: str = "left") -> np
     for i in range(n):
         out[i] = f(xp[i : i + w])
     return out
+
+
+# ------------------------------------------------------------------ RFI statistics masks (C16)
+
+_NORM_MAD = 0.6744897501960817
+_NORM_AAD = float(np.sqrt(2 / np.pi))
+_NORM_IQR = 1.3489795003921634
+
+
+def double_mad_z(x):
+    """z-scores with a per-element scale: MAD (/0.6745) of the values on the element's side of the median
+    (elements equal to the median belong to both sides and take the right-hand scale); a zero MAD falls back to
+    the mean absolute deviation (/sqrt(2/pi)) of that side, a zero scale to 1.  Data are float32-rounded first."""
+    x = np.asarray(x, dtype=np.float32).astype(np.float64)
+    med = float(np.median(x))
+    dev = np.abs(x - med)
+    left = dev[x <= med]
+    right = dev[x >= med]
+
+    def side(v):
+        s = float(np.median(v)) / _NORM_MAD
+        if np.isclose(s, 0):
+            s = float(np.mean(v)) / _NORM_AAD
+        return s
+
+    sl, sr = side(left), side(right)
+    scale = np.where(x < med, sl, sr)
+    scale = np.where(np.isclose(scale, 0), 1.0, scale)
+    z = (x - med) / scale
+    # the library forms (x - median) in float32: absolute uncertainty of a few eps32*|x| in the numerator
+    unc = 2 * EPS32 * (np.abs(x) + abs(med)) / scale
+    return z, unc
+
+
+def iqr_z(d):
+    d = np.asarray(d, dtype=np.float32).astype(np.float64)
+    q25, q75 = np.percentile(d, [25, 75])
+    s = (q75 - q25) / _NORM_IQR
+    if np.isclose(s, 0):
+        s = 1.0
+    med = float(np.median(d))
+    return (d - med) / s, 2 * EPS32 * (np.abs(d) + abs(med)) / s
+
+
+def mask_bounds(zs, thr, band=2e-4):
+    """(must, may) boolean masks for 'any |z| > thr' given a list of z arrays, with an ambiguity band."""
+    must = np.zeros(len(zs[0][0]), bool)
+    may = np.zeros(len(zs[0][0]), bool)
+    for z, unc in zs:
+        a = np.abs(z)
+        tol = band * (1 + a) + unc
+        must |= a > thr + tol
+        may |= a > thr - tol
+    return must, may
+
+
+def double_mad_bounds(x, thr):
+    return mask_bounds([double_mad_z(x)], thr)
+
+
+def iqrm_bounds(x, thr, radius=5):
+    x = np.asarray(x)
+    n = len(x)
+    idx = np.arange(n)
+    zs = []
+    for lag in list(range(-radius, 0)) + list(range(1, radius + 1)):
+        j = np.clip(idx + lag, 0, n - 1)
+        # the library forms the lagged difference in the array's own dtype
+        d = x - x[j]
+        z, unc = iqr_z(d)
+        q25, q75 = np.percentile(np.asarray(d, dtype=np.float64), [25, 75])
+        sc = (q75 - q25) / _NORM_IQR
+        sc = 1.0 if np.isclose(sc, 0) else sc
+        unc = unc + 2 * EPS32 * (np.abs(x.astype(np.float64)) + np.abs(x[j].astype(np.float64))) / sc
+        zs.append((z, unc))
+    return mask_bounds(zs, thr)
